@@ -275,8 +275,39 @@ fn build_directory(out: &mut Vec<u8>, node: &PathTreeNode) {
 }
 
 /// Build a single path entry (file or folder) into the output buffer.
+///
+/// A node that is both a file and a directory prefix (`a` and `a/b` are both
+/// files) is written as two sibling entries with the same name: the file
+/// entry followed by the folder entry.
 fn build_entry(out: &mut Vec<u8>, node: &PathTreeNode) {
-    let name_bytes = node.name.as_bytes();
+    if let Some(vfs_offset) = node.vfs_offset {
+        // File node
+        write_entry_name(out, &node.name);
+        out.push(NODE_VALUE_MARKER);
+        out.extend_from_slice(&vfs_offset.to_be_bytes());
+
+        if node.children.is_empty() {
+            return;
+        }
+    }
+
+    // Folder node — we need to compute the children data first to know the length
+    write_entry_name(out, &node.name);
+    out.push(NODE_VALUE_MARKER);
+
+    let mut children_data = Vec::new();
+    build_directory(&mut children_data, node);
+
+    // folder_data_len includes the 4-byte NodeValue
+    let folder_data_len = (children_data.len() + 4) as u32;
+    let node_value = TVFS_FOLDER_NODE | (folder_data_len & TVFS_FOLDER_SIZE_MASK);
+    out.extend_from_slice(&node_value.to_be_bytes());
+    out.extend_from_slice(&children_data);
+}
+
+/// Write the separator and name fragments that precede an entry's NodeValue.
+fn write_entry_name(out: &mut Vec<u8>, name: &str) {
+    let name_bytes = name.as_bytes();
 
     // Write path separator before name if this is a top-level entry
     // (We always write the separator for consistency)
@@ -290,24 +321,5 @@ fn build_entry(out: &mut Vec<u8>, node: &PathTreeNode) {
             out.push(chunk.len() as u8);
             out.extend_from_slice(chunk);
         }
-    }
-
-    // Write NodeValue
-    out.push(NODE_VALUE_MARKER);
-
-    if node.vfs_offset.is_some() {
-        // File node
-        let vfs_offset = node.vfs_offset.unwrap_or(0);
-        out.extend_from_slice(&vfs_offset.to_be_bytes());
-    } else {
-        // Folder node — we need to compute the children data first to know the length
-        let mut children_data = Vec::new();
-        build_directory(&mut children_data, node);
-
-        // folder_data_len includes the 4-byte NodeValue
-        let folder_data_len = (children_data.len() + 4) as u32;
-        let node_value = TVFS_FOLDER_NODE | (folder_data_len & TVFS_FOLDER_SIZE_MASK);
-        out.extend_from_slice(&node_value.to_be_bytes());
-        out.extend_from_slice(&children_data);
     }
 }
